@@ -517,6 +517,144 @@ def split_parallel_assignments(tree):
     return count[0]
 
 
+def splice_star_tuples(tree):
+    """Normalisation: `f(*(a, b))` is `f(a, b)`; and a statement `return f(*t)` / `f(*t)` / `x = f(*t)` whose only starred
+    argument is (a single-use local bound at the top level of the function to) `A if C else B` with A and B tuple displays is
+    the statement `if C: ...f(*A) else: ...f(*B)` with the tuples spliced.  Returns the number of rewrites."""
+    count = [0]
+
+    def splice(call):
+        new_args = []
+        changed = False
+        for a in call.args:
+            if isinstance(a, ast.Starred) and isinstance(a.value, (ast.Tuple, ast.List)) and \
+                    not any(isinstance(x, ast.Starred) for x in a.value.elts):
+                new_args.extend(a.value.elts)
+                changed = True
+            else:
+                new_args.append(a)
+        if changed:
+            call.args = new_args
+            count[0] += 1
+        return call
+
+    def is_tuple_ifexp(e):
+        return isinstance(e, ast.IfExp) and all(isinstance(x, (ast.Tuple, ast.List)) and
+                                                 not any(isinstance(y, ast.Starred) for y in x.elts) for x in (e.body, e.orelse))
+
+    def do_fn(fn):
+        all_nodes = list(ast.walk(fn))
+        singles = {}
+        for st in fn.body:
+            if isinstance(st, ast.Assign) and len(st.targets) == 1 and isinstance(st.targets[0], ast.Name) and is_tuple_ifexp(st.value):
+                nm = st.targets[0].id
+                n_store = sum(1 for x in all_nodes if isinstance(x, ast.Name) and x.id == nm and isinstance(x.ctx, (ast.Store, ast.Del)))
+                loads = [x for x in all_nodes if isinstance(x, ast.Name) and x.id == nm and isinstance(x.ctx, ast.Load)]
+                if n_store == 1 and len(loads) == 1:
+                    singles[nm] = st
+        new_body = []
+        drop = set()
+        for st in fn.body:
+            call = None
+            if isinstance(st, (ast.Return, ast.Expr)) and isinstance(st.value, ast.Call):
+                call = st.value
+            elif isinstance(st, ast.Assign) and isinstance(st.value, ast.Call):
+                call = st.value
+            if call is not None:
+                stars = [a for a in call.args if isinstance(a, ast.Starred)]
+                if len(stars) == 1 and not any(k.arg is None for k in call.keywords):
+                    v = stars[0].value
+                    src = None
+                    if is_tuple_ifexp(v):
+                        src = v
+                    elif isinstance(v, ast.Name) and v.id in singles and singles[v.id].lineno < st.lineno:
+                        src = singles[v.id].value
+                        drop.add(v.id)
+                    if src is not None:
+                        def variant(tup):
+                            st2 = copy.deepcopy(st)
+                            c2 = st2.value
+                            c2.args = [ast.Starred(value=copy.deepcopy(tup), ctx=ast.Load()) if isinstance(a, ast.Starred) else a
+                                       for a in c2.args]
+                            splice(c2)
+                            return st2
+                        node = ast.copy_location(ast.If(test=copy.deepcopy(src.test), body=[variant(src.body)],
+                                                        orelse=[variant(src.orelse)]), st)
+                        new_body.append(node)
+                        count[0] += 1
+                        continue
+            new_body.append(st)
+        if drop:
+            new_body = [st for st in new_body if not (isinstance(st, ast.Assign) and len(st.targets) == 1 and
+                                                      isinstance(st.targets[0], ast.Name) and st.targets[0].id in drop and
+                                                      singles.get(st.targets[0].id) is st)]
+        fn.body = new_body or fn.body
+    for fn in [x for x in ast.walk(tree) if isinstance(x, (ast.FunctionDef, ast.AsyncFunctionDef))]:
+        do_fn(fn)
+    for c in [x for x in ast.walk(tree) if isinstance(x, ast.Call)]:
+        splice(c)
+
+    class Disp(ast.NodeTransformer):
+        # [*x] is list(x), (*x,) is tuple(x), {*x} is set(x)
+        def _one(self, n, name):
+            self.generic_visit(n)
+            if isinstance(getattr(n, 'ctx', ast.Load()), ast.Load) and len(n.elts) == 1 and isinstance(n.elts[0], ast.Starred):
+                count[0] += 1
+                return ast.copy_location(ast.Call(func=ast.copy_location(ast.Name(id=name, ctx=ast.Load()), n),
+                                                  args=[n.elts[0].value], keywords=[]), n)
+            return n
+
+        def visit_List(self, n):
+            return self._one(n, 'list')
+
+        def visit_Tuple(self, n):
+            return self._one(n, 'tuple')
+
+        def visit_Set(self, n):
+            return self._one(n, 'set')
+    Disp().visit(tree)
+    ast.fix_missing_locations(tree)
+    return count[0]
+
+
+def hoist_walrus_and_split_call_ifexp(tree):
+    """Normalisation of two statement forms: `if (x := E): ...` is `x = E` followed by `if x: ...`; an expression statement
+    `f(A if C else B)` (single positional argument, f a plain name or dotted name) is `if C: f(A)` / `else: f(B)`."""
+    count = [0]
+
+    def dotted(e):
+        while isinstance(e, ast.Attribute):
+            e = e.value
+        return isinstance(e, ast.Name)
+
+    class T(ast.NodeTransformer):
+        def visit_If(self, n):
+            self.generic_visit(n)
+            t = n.test
+            if isinstance(t, ast.NamedExpr) and isinstance(t.target, ast.Name):
+                count[0] += 1
+                asg = ast.copy_location(ast.Assign(targets=[ast.copy_location(ast.Name(id=t.target.id, ctx=ast.Store()), t)],
+                                                   value=t.value), n)
+                n.test = ast.copy_location(ast.Name(id=t.target.id, ctx=ast.Load()), t)
+                return [asg, n]
+            return n
+
+        def visit_Expr(self, n):
+            self.generic_visit(n)
+            c = n.value
+            if isinstance(c, ast.Call) and len(c.args) == 1 and not c.keywords and isinstance(c.args[0], ast.IfExp) and dotted(c.func):
+                count[0] += 1
+                a = ast.copy_location(ast.Expr(value=ast.copy_location(
+                    ast.Call(func=copy.deepcopy(c.func), args=[c.args[0].body], keywords=[]), c)), n)
+                b = ast.copy_location(ast.Expr(value=ast.copy_location(
+                    ast.Call(func=copy.deepcopy(c.func), args=[c.args[0].orelse], keywords=[]), c)), n)
+                return ast.copy_location(ast.If(test=c.args[0].test, body=[a], orelse=[b]), n)
+            return n
+    T().visit(tree)
+    ast.fix_missing_locations(tree)
+    return count[0]
+
+
 def split_conditional_returns(tree):
     """Normalisation: `return A if C else B` is the statement `if C: return A` / `else: return B` (nested conditional
     expressions likewise), so that the path rules see the condition as a test and each alternative as the value of its own
@@ -819,9 +957,11 @@ class Module:
         self.unrolled_table_loops = unroll_table_loops(self.tree)
         self.expanded_method_wrappers = expand_method_wrappers(self.tree)
         self.split_parallel_assignments = split_parallel_assignments(self.tree)
+        self.hoisted_walrus = hoist_walrus_and_split_call_ifexp(self.tree)
         self.inlined_method_aliases = inline_bound_method_aliases(self.tree)
         self.inlined_attribute_aliases = inline_attribute_aliases(self.tree)
         self.split_conditional_returns = split_conditional_returns(self.tree)
+        self.spliced_star_tuples = splice_star_tuples(self.tree)
         self.classes = {}
         self.functions = {}
         self.assigns = {}         # name -> list of value exprs, in order
